@@ -13,6 +13,7 @@ import (
 	"fmt"
 	"strings"
 	"sync"
+	"sync/atomic"
 
 	"github.com/wrgl/wrgl/pkg/objects"
 )
@@ -102,9 +103,13 @@ func (s *Store) matchFault(op, key string) bool {
 
 // enter parks the caller (bubble mode), then decides whether this op fails.
 //
+// Progress counts store operations of all stores (hang watchdog).
+var Progress atomic.Int64
+
 //go:norace
 func (s *Store) enter(op string, key []byte) (fail bool) {
 	raceDisable()
+	Progress.Add(1)
 	k := string(key)
 	if s.Sched != nil && !s.NoPark && s.Sched.Active() {
 		s.Sched.park(op, k)
